@@ -12,6 +12,9 @@
     c05.delete N cond                         DELETE FROM N WHERE cond
     c05.updatem nt T… nf F… n (tbl field e)* cond   UPDATE T… SET … FROM F… (cross join) WHERE cond
     c05.deletem nt T… nf F… cond              DELETE T… FROM F… WHERE cond
+    c05.updatej nt T… dir A B n (tbl field e)* on cond   UPDATE T… SET … FROM A dir JOIN B ON on WHERE cond;  dir = left|right|full
+    c05.deletej nt T… dir A B on cond         DELETE T… FROM A dir JOIN B ON on WHERE cond
+                                              (the NULL-padded side of an unmatched record has no internal record id)
     c05.addcol N pos n (name 0 | name 1 e)*   ALTER TABLE N ADD (…) pos;  pos = first|last|before:c|after:c
     c05.dropcol N n col…   c05.rename N old new   c05.create N n col…
     c05.createas N n col… src k e_1…e_k cond   CREATE TABLE N (cols) AS SELECT e… FROM src WHERE cond
@@ -264,6 +267,9 @@ def parsePos (s : String) : Option ColPos :=
     | ["after", c] => some (.after c)
     | _ => none
 
+def parseDir (s : String) : Option Dml.Dir :=
+  if s = "left" then some .left else if s = "right" then some .right else if s = "full" then some .full else none
+
 def chunkRows (n : Nat) (cells : List Cell) : Nat → List Row
   | 0 => []
   | fuel + 1 => if cells.isEmpty || n = 0 then [] else cells.take n :: chunkRows n (cells.drop n) fuel
@@ -483,7 +489,7 @@ def step (s : State) (cmd : String) (args : List String) : State × String :=
               match pEx r4 with
               | some (cond, []) =>
                 let mk (rows : List Row) : Ctx := (froms.zip rows).map fun p => (p.1, headerOf s.tables p.1, p.2)
-                runStmt s (.updateMulti targets froms (fun rows => evalCond s.tables (mk rows) cond)
+                runStmt s (.updateMulti targets froms .cross (fun rows => evalCond s.tables (mk rows) cond)
                   (sets.map fun p => (p.1, { field := p.2.1, expr := fun rows => eval s.tables (mk rows) p.2.2 }))) targets
               | _ => bad
   | "deletem", rest =>
@@ -496,8 +502,46 @@ def step (s : State) (cmd : String) (args : List String) : State × String :=
         match pEx r2 with
         | some (cond, []) =>
           let mk (rows : List Row) : Ctx := (froms.zip rows).map fun p => (p.1, headerOf s.tables p.1, p.2)
-          runStmt s (.deleteMulti targets froms fun rows => evalCond s.tables (mk rows) cond) targets
+          runStmt s (.deleteMulti targets froms .cross fun rows => evalCond s.tables (mk rows) cond) targets
         | _ => bad
+  | "updatej", rest =>
+    match takeN rest with
+    | some (targets, d :: a :: b :: k :: r3) =>
+      match parseDir d, k.toNat? with
+      | some dir, some k =>
+        match parseSetsM k r3 with
+        | none => bad
+        | some (sets, r4) =>
+          match pEx r4 with
+          | none => bad
+          | some (on, r5) =>
+            match pEx r5 with
+            | some (cond, []) =>
+              let froms := [a, b]
+              let mk (rows : List Row) : Ctx := (froms.zip rows).map fun p => (p.1, headerOf s.tables p.1, p.2)
+              runStmt s (.updateMulti targets froms (.outer dir fun rows => evalCond s.tables (mk rows) on)
+                (fun rows => evalCond s.tables (mk rows) cond)
+                (sets.map fun p => (p.1, { field := p.2.1, expr := fun rows => eval s.tables (mk rows) p.2.2 }))) targets
+            | _ => bad
+      | _, _ => bad
+    | _ => bad
+  | "deletej", rest =>
+    match takeN rest with
+    | some (targets, d :: a :: b :: r3) =>
+      match parseDir d with
+      | none => bad
+      | some dir =>
+        match pEx r3 with
+        | none => bad
+        | some (on, r4) =>
+          match pEx r4 with
+          | some (cond, []) =>
+            let froms := [a, b]
+            let mk (rows : List Row) : Ctx := (froms.zip rows).map fun p => (p.1, headerOf s.tables p.1, p.2)
+            runStmt s (.deleteMulti targets froms (.outer dir fun rows => evalCond s.tables (mk rows) on)
+              (fun rows => evalCond s.tables (mk rows) cond)) targets
+          | _ => bad
+    | _ => bad
   | "addcol", n :: pos :: k :: rest =>
     match parsePos pos, k.toNat? with
     | some pos, some k =>
